@@ -9,6 +9,14 @@ TRUST = [
 ]
 
 CONFIG = {
+    "C15": {
+        "level": "exploration",
+        "assumptions": TRUST + ["the downstream is the harness's spec-compliant introspection responder (self-tested against the harness's standard client: TestSelfIntrospection)",
+                                "@specifiedBy and applied (non-definition) directives are not compared: the statement does not list them and introspection cannot express the latter",
+                                "a start-up error is accepted only for schemas with wrappers deeper than the introspection query's ofType chain"],
+        "quick": {"tests": [("TestSelfIntrospection", 300), ("TestC15", 2500)], "shards": 4, "timeout": 600},
+        "thorough": {"tests": [("TestSelfIntrospection", 2000), ("TestC15", 30000)], "shards": 16, "timeout": 2400, "fuzz": [("FuzzIntrospectionDecode", 120)]},
+    },
     "C08": {
         "level": "exploration",
         "gates_of": ["C01"],
